@@ -9,11 +9,13 @@ from hypothesis import strategies as st
 from .. import simenv
 from ..core import Lab, Violation, exc_violation
 
-KINDS = ["bool", "int", "float", "str", "bytes", "rot", "a_bool", "a_int", "a_float", "a_str", "a_rot", "e_int", "e_float", "e_str", "e_bool"]
+KINDS = ["bool", "int", "float", "str", "bytes", "rot", "a_bool", "a_int", "a_float", "a_str", "a_rot", "e_int", "e_float", "e_str", "e_bool", "h_float", "h_afloat"]
 TYPE_STRING = {
     "bool": "boolean", "int": "int", "float": "double", "str": "string", "bytes": "raw", "rot": "struct:Rotation2d",
     "a_bool": "boolean[]", "a_int": "int[]", "a_float": "double[]", "a_str": "string[]", "a_rot": "struct:Rotation2d[]",
     "e_int": "int[]", "e_float": "double[]", "e_str": "string[]", "e_bool": "boolean[]",
+    # a float type hint with an int-valued default: the hint decides
+    "h_float": "double", "h_afloat": "double[]",
 }
 SCALARS = {
     "bool": [False, True, True, False],
@@ -27,13 +29,23 @@ HINT_NAME = {"e_int": "int", "e_float": "float", "e_str": "str", "e_bool": "bool
 
 
 def base_of(kind):
+    if kind == "h_float":
+        return "float"
+    if kind == "h_afloat":
+        return "float"
     return kind[2:] if kind[:2] in ("a_", "e_") else kind
+
+
+def is_array(kind):
+    return kind[:2] in ("a_", "e_") or kind == "h_afloat"
 
 
 def value_for(kind, code):
     """JSON-able value"""
     b = base_of(kind)
     pool = SCALARS[b]
+    if kind == "h_afloat":
+        return [pool[(code + i) % 4] for i in range(1 + code % 3)]
     if kind[:2] == "a_":
         return [pool[(code + i) % 4] for i in range(1 + code % 3)]
     if kind[:2] == "e_":
@@ -72,7 +84,17 @@ def class_source(case):
             kw += f", subtable={t['sub']!r}"
         k = t["kind"]
         lvl = t.get("lvl", 0)
-        if k[:2] == "e_" and not t["default"]:
+        if k in ("h_float", "h_afloat"):
+            # the declared default is int-valued, the annotation says float
+            d = t["default"]
+            lit = repr([int(x) if float(x).is_integer() and abs(x) < 1e15 else x for x in d]) if isinstance(d, list) else repr(int(d) if float(d).is_integer() and abs(d) < 1e15 else d)
+            if k == "h_float":
+                body[lvl].append(f"    {t['a']}: float = tunable({lit}{kw})")
+            elif t.get("style", 0) == 0:
+                body[lvl].append(f"    {t['a']} = tunable[Sequence[float]]({lit}{kw})")
+            else:
+                body[lvl].append(f"    {t['a']}: tunable[Sequence[float]] = tunable({lit}{kw})")
+        elif k[:2] == "e_" and not t["default"]:
             h = HINT_NAME[k]
             style = t.get("style", 0)
             if style == 0:
@@ -105,7 +127,7 @@ def gen_module():
 
 def same(kind, got, want):
     b = base_of(kind)
-    if kind[:2] in ("a_", "e_"):
+    if is_array(kind):
         if not isinstance(got, (list, tuple)) or len(got) != len(want):
             return False
         return all(same(b, g, w) for g, w in zip(got, want))
@@ -150,7 +172,7 @@ def publisher_for(inst, kind, key):
     from wpimath.geometry import Rotation2d
 
     b = base_of(kind)
-    arr = kind[:2] in ("a_", "e_")
+    arr = is_array(kind)
     if b == "rot":
         return inst.getStructArrayTopic(key, Rotation2d).publish() if arr else inst.getStructTopic(key, Rotation2d).publish()
     if b == "bytes":
@@ -160,7 +182,7 @@ def publisher_for(inst, kind, key):
 
 
 _I = st.integers
-_TUN = st.tuples(_I(0, 14), _I(0, 11), st.booleans(), _I(0, 3), _I(0, 2), _I(0, 1), _I(0, 3))
+_TUN = st.tuples(_I(0, 16), _I(0, 11), st.booleans(), _I(0, 3), _I(0, 2), _I(0, 1), _I(0, 3))
 _OP = st.tuples(_I(0, 3), _I(0, 1), _I(0, 5), _I(0, 11))
 _CASE = st.tuples(st.lists(_TUN, min_size=1, max_size=6), _I(0, 4), _I(0, 5), st.lists(st.tuples(_I(0, 5), _I(0, 11)), max_size=4),
                   st.lists(_OP, min_size=1, max_size=16), st.booleans())
